@@ -70,7 +70,7 @@ def step (s : St) : List String → St × String
     | none => (s, "bad-op")
     | some t =>
       if exists_ s.L t then
-        let locks := sortNat ((lockset s.L t).map (idxOfSub s.L))
+        let locks := (lockOrder s.L t).map (subIndex s.L)   -- in the order in which they are taken
         let ch := sortNat ((children s.L t).map (code s.L))
         (s, s!"task {g} {sl} {kindName s.L t} locks=[{" ".intercalate (locks.map toString)}] children=[{showCodes ch}] reset={resetCount s.L t} parents={(parents s.L t).length}")
       else (s, s!"task {g} {sl} none")
